@@ -15,9 +15,13 @@ SERVER_CRED = {"rsa": "rsa", "dhe_rsa": "rsa", "ecdhe_rsa": "rsa", "ecdhe_ecdsa"
 TICKET_KEY = bytearray(b"\x11" * 32)
 
 
-def flavour(ver, kex, reqCert="no", ticket=False, npn=False, resume="none", hrr=False, tickets13=0, ccred="c_rsa"):
-    return dict(ver=ver, kex=kex, reqCert=reqCert, ticket=ticket, npn=npn, resume=resume, hrr=hrr,
-                tickets13=tickets13, ccred=ccred)
+def flavour(ver, kex, reqCert="no", ticket=False, npn=False, resume="none", hrr=False, tickets13=0, ccred="c_rsa", dc=None):
+    """dc: None or the type of the delegated key ("ecdsa", "ed25519", "rsapss") - TLS 1.3 server with a delegated credential"""
+    f = dict(ver=ver, kex=kex, reqCert=reqCert, ticket=ticket, npn=npn, resume=resume, hrr=hrr,
+             tickets13=tickets13, ccred=ccred)
+    if dc:
+        f["dc"] = dc
+    return f
 
 
 def fname(f):
@@ -36,6 +40,8 @@ def fname(f):
         s += "-hrr"
     if f["tickets13"]:
         s += "-nst%d" % f["tickets13"]
+    if f.get("dc"):
+        s += "-dc" + f["dc"]
     return s
 
 
@@ -76,7 +82,10 @@ def all_flavours(level="core"):
     out.append(flavour(4, "tls13", reqCert="nocert"))
     out.append(flavour(4, "tls13", hrr=True))
     out.append(flavour(4, "tls13", tickets13=1, resume="psk"))
+    out.append(flavour(4, "tls13_ecdsa", dc="ecdsa"))
     if level != "core":
+        out.append(flavour(4, "tls13_pss", dc="ed25519"))
+        out.append(flavour(4, "tls13_ed25519", dc="rsapss", hrr=True))
         out.append(flavour(4, "tls13", reqCert="cert", ccred="c_ecdsa", tickets13=1))
         out.append(flavour(4, "tls13_ecdsa", hrr=True, reqCert="cert"))
         out.append(flavour(4, "tls13", tickets13=1, resume="psk", hrr=True))
@@ -123,6 +132,17 @@ def build(f, cextra=None, sextra=None):
         ss["ticketKeys"] = [TICKET_KEY]
     if f["ver"] < 4 and not f["ticket"] and f["resume"] != "ticket":
         ss["ticketKeys"] = []
+    if f.get("dc"):
+        from tlslite.constants import SignatureScheme
+        from .props.c05 import make_dc
+        cert_alg = {"tls13_pss": SignatureScheme.rsa_pss_pss_sha256, "tls13_ecdsa": SignatureScheme.ecdsa_secp256r1_sha256,
+                    "tls13_ed25519": SignatureScheme.ed25519}[kex]
+        dc_key, dc = make_dc(skw["certChain"], skw["privateKey"], cert_alg, f["dc"])
+        skw["privateKey"] = None
+        skw["dc_key"] = dc_key
+        skw["del_cred"] = dc
+        cs["dc_sig_algs"] = [SignatureScheme.rsa_pss_pss_sha256, SignatureScheme.ed25519, SignatureScheme.ecdsa_secp256r1_sha256,
+                             SignatureScheme.ecdsa_secp384r1_sha384]
     if f["npn"]:
         ckw["nextProtos"] = [b"http/1.1", b"spdy/3"]
         skw["nextProtos"] = [b"spdy/3", b"http/1.1"]
